@@ -46,3 +46,16 @@ Print Assumptions C06_drain_delivers_all_when_accepted.
 Theorem C06_refuted_readable_else_writable : forall s orc, on_ready false s (Ready true true) orc = (s, orc).
 Proof. exact combined_event_lost_before_fix. Qed.
 Print Assumptions C06_refuted_readable_else_writable.
+
+(* "always fulfilled when the peer stays connected and keeps reading", on the model: from every state the
+   write path can be in (the invariant; reached after any pattern of short writes and would-blocks), a drain
+   attempt against a socket that accepts delivers the whole stream, fulfils every queued promise - in issue
+   order, after those settled before - with the full size of its buffer, and leaves nothing queued *)
+Theorem C06_all_fulfilled_when_accepted : forall total sz s big extra,
+  Inv total s -> sizes_ok sz s -> Forall (fun e => length (e_rest e) <= big) (queue s) ->
+  let s' := fst (drain (S (length (queue s)) + extra) s (repeat (Acc big) (length (queue s)))) in
+  queue s' = [] /\ wire s' = total
+  /\ map fst (settled s') = map fst (settled s) ++ pids s
+  /\ Forall (fun p => snd p = sz (fst p)) (settled s').
+Proof. exact all_fulfilled_when_accepted. Qed.
+Print Assumptions C06_all_fulfilled_when_accepted.
